@@ -126,7 +126,9 @@ ForwardClauses(ev) ==
             Hops(b) = {[num |-> h.num, limit |-> h.limit, count |-> h.count + 1] : h \in Hops(hist[id].b)}),
     C({"C11"}, "AtMostOneBundleAge", cands # {} => Cardinality(BlocksOfKind(b, "age")) <= 1),
     C({"C11"}, "BundleAgeReflectsTimeSinceCreation",
-        (cands # {} /\ b.tsnz) => \A i \in BlocksOfKind(b, "age") : ev.agedelta = 0),
+        \* agedelta = transmitted age - (now - creation time), or, with creation time zero,
+        \*            transmitted age - (age as received + time spent at this node)
+        cands # {} => \A i \in BlocksOfKind(b, "age") : ev.agedelta = 0),
     C({"C11"}, "OtherBlocksUnchanged",
         whole # {} => \A id \in whole : NonHopByHop(b) = NonHopByHop(hist[id].b)),
     C({"C11"}, "NoGarbledHopByHopBlock", cands # {} => BlocksOfKind(b, "garbled") = {})
